@@ -77,15 +77,15 @@ func (m *Model) loopDesc(li *loopInfo) string {
 
 type consumerInfo struct {
 	m         *Model
-	callPoint func(c ssa.CallInstruction) bool // executing this call is a pass point
-	okPoint   func(c *ssa.Call) bool           // the success (true / non-nil) edge of this call's result is a pass point
-	failPoint func(c *ssa.Call) bool           // the failure (false / nil) edge of this call's result is a pass point (optional)
-	always    map[*ssa.Function]bool           // every path entry->return passes a point
-	onOK      map[*ssa.Function]bool           // every path to a non-nil/true return passes a point
-	onFail    map[*ssa.Function]bool           // every path to a return whose bool verdict may be false passes a point
-	may       map[*ssa.Function]bool           // contains (transitively) a point
-	strict    bool                             // when set, calls to may-functions count as points
-	errAware  bool                             // a function whose first result is an error succeeds when it returns nil
+	callPoint func(c ssa.CallInstruction) bool      // executing this call is a pass point
+	okPoint   func(c *ssa.Call) bool                // the success (true / non-nil) edge of this call's result is a pass point
+	failPoint func(c *ssa.Call) bool                // the failure (false / nil) edge of this call's result is a pass point (optional)
+	always    map[*ssa.Function]bool                // every path entry->return passes a point
+	onOK      map[*ssa.Function]bool                // every path to a non-nil/true return passes a point
+	onFail    map[*ssa.Function]bool                // every path to a return whose bool verdict may be false passes a point
+	may       map[*ssa.Function]bool                // contains (transitively) a point
+	strict    bool                                  // when set, calls to may-functions count as points
+	errAware  bool                                  // a function whose first result is an error succeeds when it returns nil
 	edgePoint func(pred, succ *ssa.BasicBlock) bool // taking this edge is a pass point (optional)
 	constMemo map[ssa.CallInstruction]bool
 }
